@@ -429,8 +429,13 @@ theorem C07_handler_never_ends_cleanly (cfg : Cfg) (n : Name) (as : List Attr) (
     (inv : Option Inv) (w : List Tok) : handleElem cfg n as rs1 prog ≠ .stop inv w .clean :=
   handleElem_never_clean cfg n as rs1 prog inv w
 
+/-- the peer's closing tag `</stream:stream>` or, on a session that uses the WebSocket
+subprotocol, its `<close/>` framing element (as `wsInput true` represents it) -/
+def PeerClose (t : Tok) : Prop :=
+  t = .stop ⟨nsStream, "stream"⟩ ∨ ∃ as, t = .start ⟨nsStream, wsCloseMark⟩ as
+
 theorem verdict_eof {d d' : Nat} {t : Tok} {rest : List Tok}
-    (h : verdict d t rest = (d', Rd.eof)) : t = .stop ⟨nsStream, "stream"⟩ := by
+    (h : verdict d t rest = (d', Rd.eof)) : PeerClose t := by
   cases t with
   | chars s =>
     simp only [verdict, Prod.mk.injEq] at h
@@ -439,8 +444,23 @@ theorem verdict_eof {d d' : Nat} {t : Tok} {rest : List Tok}
   | start n as =>
     simp only [verdict, Prod.mk.injEq] at h
     obtain ⟨_, h⟩ := h
-    repeat' split at h
-    all_goals cases h
+    by_cases h1 : (n.space != nsStream) = true
+    · rw [if_pos h1] at h; cases h
+    · rw [if_neg h1] at h
+      by_cases h2 : (n.loc == "error") = true
+      · rw [if_pos h2] at h
+        repeat' split at h
+        all_goals cases h
+      · rw [if_neg h2] at h
+        by_cases h3 : (n.loc == "stream") = true
+        · rw [if_pos h3] at h; cases h
+        · rw [if_neg h3] at h
+          by_cases h4 : (n.loc == wsCloseMark) = true
+          · refine Or.inr ⟨as, ?_⟩
+            simp only [bne_iff_ne, ne_eq, Decidable.not_not] at h1
+            simp only [beq_iff_eq] at h4
+            cases n; simp_all
+          · rw [if_neg h4] at h; cases h
   | stop n =>
     simp only [verdict, Prod.mk.injEq] at h
     obtain ⟨_, h⟩ := h
@@ -450,14 +470,14 @@ theorem verdict_eof {d d' : Nat} {t : Tok} {rest : List Tok}
       by_cases h2 : (n.loc == "stream") = true
       · simp only [bne_iff_ne, ne_eq, Decidable.not_not] at h1
         simp only [beq_iff_eq] at h2
-        cases n; simp_all
+        left; cases n; simp_all
       · rw [if_neg h2] at h; cases h
   | comment s => simp [verdict] at h
   | procInst a b => simp [verdict] at h
   | directive s => simp [verdict] at h
 
 theorem next_eof_is_close (s : RS) (hs : s.sticky = none) {s' : RS} (h : s.next = (.eof, s')) :
-    ∃ rest, s.inp = .stop ⟨nsStream, "stream"⟩ :: rest := by
+    ∃ t rest, s.inp = t :: rest ∧ PeerClose t := by
   unfold RS.next at h
   simp only [hs] at h
   cases hi : s.inp with
@@ -477,16 +497,17 @@ theorem next_eof_is_close (s : RS) (hs : s.sticky = none) {s' : RS} (h : s.next 
       | eof =>
         have h1 := verdict_tok hv
         have h2 := verdict_eof hv2
-        exact ⟨rest, by rw [← h1.1, h2]⟩
+        exact ⟨a, rest, rfl, by rw [← h1.1]; exact h2⟩
     | err e => simp at h
-    | eof => exact ⟨rest, by rw [verdict_eof hv]⟩
+    | eof => exact ⟨a, rest, rfl, verdict_eof hv⟩
 
 /-- **Serve returns nil only on the peer's closing tag**: a step ends the session without
-error only when the very next token of the input is `</stream:stream>`; no handler has run in
+error only when the very next token of the input is `</stream:stream>` (or, on a WebSocket
+session, the `<close/>` framing element); no handler has run in
 that step and nothing was written — never because of a handler's return value -/
 theorem C07_nil_only_on_peer_close (cfg : Cfg) (rs : RS) (prog : Prog) (inv : Option Inv) (w : List Tok)
     (h : handleInputStream cfg rs prog = .stop inv w .clean) :
-    inv = none ∧ w = [] ∧ ∃ rest, rs.inp = .stop ⟨nsStream, "stream"⟩ :: rest := by
+    inv = none ∧ w = [] ∧ ∃ t rest, rs.inp = t :: rest ∧ PeerClose t := by
   unfold handleInputStream at h
   generalize hn : ({ rs with dOut := 0, sticky := none } : RS).next = r at h
   obtain ⟨rd, rs1⟩ := r
